@@ -23,9 +23,13 @@ rewrites do not matter): whitespace, comments, redundant parentheses, macro vs. 
 (`.01` = `0.01`).  Anything the parser does not understand becomes `SOther` / `Other`, which no
 checker accepts (fail-closed).
 
-PV_REPO is honoured exactly as gen_optables.py does: the .v file is the same (engines/bwtables.py
-restores the /repo version after a scratch run), the JSON copy gets a `-scratch` suffix.
+PV_REPO is honoured: for a scratch tree the table goes to a SEPARATE file
+_work/gen/bw-scratch-<md5 of the path>/Gen/BwTables.v (engines/bwtables.py compiles private copies of
+the table-dependent files against it under the logical root PVS), never to coq/Gen/BwTables.v, so
+that concurrent checks of /repo and of scratch trees cannot see each other's table; the JSON copy
+gets a `-scratch` suffix as in gen_optables.py.
 """
+import hashlib
 import importlib
 import json
 import os
@@ -43,9 +47,20 @@ Untranslatable = go.Untranslatable
 SOURCES = ("operator_impl.h", "operator_impl.cc", "arithmetic.h", "tensor_funcs.cc", "basic_functions.h", "device.cc")
 
 
+def scratch_dir():
+    """private directory of the table (and of the copies compiled against it) for a scratch tree"""
+    h = hashlib.md5(go.repo().encode()).hexdigest()[:8]
+    return os.path.join(ROOT, "_work", "gen", "bw-scratch-" + h)
+
+
+def out_v():
+    return OUT_V if go.repo() == "/repo" else os.path.join(scratch_dir(), "Gen", "BwTables.v")
+
+
 def out_json():
-    sfx = "" if go.repo() == "/repo" else "-scratch"
-    return os.path.join(ROOT, "_work", "gen", "bwtables%s.json" % sfx)
+    if go.repo() == "/repo":
+        return os.path.join(ROOT, "_work", "gen", "bwtables.json")
+    return os.path.join(scratch_dir(), "bwtables-scratch.json")
 
 
 # --------------------------------------------------------------------------- Device signatures
@@ -267,7 +282,7 @@ def render_reviewed(tabs):
 # --------------------------------------------------------------------------- main
 
 def main(write_v=True):
-    """Regenerate coq/Gen/BwTables.v (and the JSON copy).  When the sources cannot be read the
+    """Regenerate coq/Gen/BwTables.v (for a scratch tree: the private copy, see out_v) and the JSON copy.  When the sources cannot be read the
     file is still written, with empty tables (the non-emptiness obligation then fails), so that
     no stale table is ever checked."""
     err = None
@@ -287,13 +302,13 @@ def main(write_v=True):
         content = render(tabs)
         if err:
             content += "(* UNTRANSLATABLE: %s *)\n" % err.replace("*)", "* )")
-        go.write_if_changed(OUT_V, content)
+        go.write_if_changed(out_v(), content)
     os.makedirs(os.path.dirname(out_json()), exist_ok=True)
     with open(out_json(), "w") as f:
         json.dump(tabs, f, indent=1)
     if err:
         raise Untranslatable(err)
-    return OUT_V
+    return out_v()
 
 
 if __name__ == "__main__":
